@@ -52,6 +52,41 @@ def run(rep, tier, seed, replay):
             rep.violation("correspondence", "negation programs: text of the exhaustive / nonexhaustive programs", {"negation": [unhx(x) for x in q.split(" ")[2:]]}, impl=a[:300], model=b[:300])
         else:
             rep.stats["negation-programs-equal-model"] += 1
+    # ... and their LANGUAGE: exhaustive | nonexhaustive program = the union of the negation's patterns (the crate's own
+    # program texts, all paths; into_alternatives / into_non_trivial must not change what is matched)
+    nplang, npown = [], []
+    impl_np = dict(zip(npreq, h.ask(npreq)))
+    member_pat = {}
+    allmem = sorted({x for q in npreq for x in q.split(" ")[2:]})
+    for x, line in zip(allmem, h.ask(["B " + x for x in allmem])):
+        d = lib.parse_impl_build(line)
+        member_pat[x] = d["pattern"] if d["ok"] else None
+    for q in npreq:
+        a = impl_np[q]
+        f = dict(y.split("=", 1) for y in a.split(" ") if "=" in y)
+        progs = [unhx(f[k2]) for k2 in ("ex", "nx") if f.get(k2, "none") not in ("none", "-")]
+        mem = [member_pat.get(x) for x in q.split(" ")[2:]]
+        if not progs or any(m0 is None for m0 in mem):
+            continue
+        strip = lambda pt: pt[5:-1] if pt.startswith("(?s)^") and pt.endswith("$") else pt
+        nplang.append("L %s %s" % (hx("(?s)^(?:%s)$" % "|".join("(?:%s)" % strip(x) for x in progs)), hx("(?s)^(?:%s)$" % "|".join("(?:%s)" % strip(x) for x in mem))))
+        npown.append(q)
+    for q, line in zip(npown, h.ask(nplang)):
+        pats_q = [unhx(x) for x in q.split(" ")[2:]]
+        if line == "EQUAL":
+            rep.stats["negation programs match exactly what the patterns match"] += 1
+        elif line.startswith("DIFF"):
+            w = unhx(line.split()[1])
+            by_members = any(l2.startswith("match") for l2 in h.ask(["M %s %s" % (x, hx(w)) for x in q.split(" ")[2:]]))
+            fa = m.ask(["FA %d %s" % (len(pats_q), " ".join(q.split(" ")[2:]))])[0]
+            tags = fa[4:].split(",") if fa.startswith("out:") else []
+            c01ids = {f0["id"] for f0 in common.load_findings("C01")[0]} | {f0["id"] for f0 in common.load_findings("C07")[0]}
+            if tags and all(t0 in c01ids for t0 in tags) and impl_np[q] == dict(zip(npreq, [None] * 0)).get(q, impl_np[q]):
+                rep.stats["negation programs deviate at a listed encoder finding (%s)" % ",".join(tags)] += 1
+            else:
+                rep.violation("oracle", "the programs a negation compiles to %s %r, which its pattern%s %s" % (
+                    "do not match" if by_members else "match", w, "s" if len(pats_q) > 1 else "", "match" if by_members else "do not match"),
+                    {"negation": pats_q, "path": w, "what": "negation-programs"}, impl=impl_np[q][:300], fragment=fa)
     reqs, owner = [], []
     for k, (c, t) in enumerate(zip(cases, twins)):
         if not (c.head.startswith("root=") and t.head.startswith("root=")):
